@@ -7,7 +7,9 @@ CFG = dict(
           "rewritten destination / last return-route hop, unchanged but for the routing fields, own name appended to the route record exactly "
           "once, return route popped), C16_drop_only_when_full, C16_no_loss and C16_no_loss_outstanding (at most B <= buffer envelopes ever "
           "outstanding for a destination => nothing dropped, everything accepted handed on in order, once), C16_source_order, C16_pair_order, C16_delivered_Q (in every quiescent state an idle live write loop has nothing buffered or in "
-          "flight: everything enqueued - below the buffer everything accepted - has been handed to the connection), "
+          "flight: everything enqueued - below the buffer everything accepted - has been handed to the connection), C16_measure / C16_terminates / C16_run_to_quiescence (every internal rule decreases a measure; "
+          "internal continuations are bounded; a maximal one exists) and C16_delivered (the same over EVERY maximal internal continuation from "
+          "every reachable state: no quiescence hypothesis), "
           "C16_wire (nothing dropped for destination i => for every source j the envelopes of j among what i is handed are exactly, in order and "
           "once each, the envelopes accepted from j for i with the route applied: a reliable ordered wire that only rewrites routing fields), "
           "C16_dial_once, C16_redial, C16_return_route (the reply a server builds from the request's route record - reply_of, tied to the real Server by the rig - is routed back to the hop "
@@ -19,7 +21,8 @@ CFG = dict(
           "exploration (Check/C16red.v at build time, case kind CProxyRed on lock-step scenarios).",
     props="Props/C16.v",
     theorems=["C16_accounting", "C16_route", "C16_drop_only_when_full", "C16_no_loss", "C16_source_order", "C16_pair_order",
-              "C16_dial_once", "C16_redial", "C16_no_loss_outstanding", "C16_delivered_Q", "C16_wire", "C16_return_route",
+              "C16_dial_once", "C16_redial", "C16_no_loss_outstanding", "C16_delivered_Q", "C16_measure", "C16_terminates",
+              "C16_run_to_quiescence", "C16_delivered", "C16_wire", "C16_return_route",
               "C16_complete_means_complete_refuted"],
     imports=["Model.Proxy", "Check.C16c", "Check.C16red"],
     case_type="pxcase",
